@@ -397,7 +397,7 @@ impl KotoVm {
 
         let old_frame_count = self.call_stack.len();
 
-        self.call_callable(
+        if let Err(error) = self.call_callable(
             CallInfo {
                 result_register: Some(result_register),
                 frame_base,
@@ -407,7 +407,12 @@ impl KotoVm {
                 packed_arg_count: 0,
             },
             function,
-        )?;
+        ) {
+            // The call failed before a frame was entered,
+            // so discard the registers that were set up for the call.
+            self.truncate_registers(result_register);
+            return Err(error);
+        }
 
         let result = if self.call_stack.len() == old_frame_count {
             // If the call stack is the same size as before calling call_callable,
@@ -438,6 +443,14 @@ impl KotoVm {
 
     /// Provides the result of running a unary operation on a KValue
     pub fn run_unary_op(&mut self, op: UnaryOp, value: KValue) -> Result<KValue> {
+        let result_register = self.next_register();
+        let result = self.run_unary_op_inner(op, value);
+        // Ensure that the operation's registers are discarded if it exited early with an error
+        self.truncate_registers(result_register);
+        result
+    }
+
+    fn run_unary_op_inner(&mut self, op: UnaryOp, value: KValue) -> Result<KValue> {
         use UnaryOp::*;
 
         let old_frame_count = self.call_stack.len();
@@ -477,6 +490,14 @@ impl KotoVm {
 
     /// Provides the result of running a binary operation on a pair of Values
     pub fn run_binary_op(&mut self, op: BinaryOp, lhs: KValue, rhs: KValue) -> Result<KValue> {
+        let result_register = self.next_register();
+        let result = self.run_binary_op_inner(op, lhs, rhs);
+        // Ensure that the operation's registers are discarded if it exited early with an error
+        self.truncate_registers(result_register);
+        result
+    }
+
+    fn run_binary_op_inner(&mut self, op: BinaryOp, lhs: KValue, rhs: KValue) -> Result<KValue> {
         let old_frame_count = self.call_stack.len();
 
         let result_register = self.next_register();
@@ -554,6 +575,19 @@ impl KotoVm {
         container: KValue,
         read_arg: KValue,
     ) -> Result<KValue> {
+        let result_register = self.next_register();
+        let result = self.run_read_op_inner(op, container, read_arg);
+        // Ensure that the operation's registers are discarded if it exited early with an error
+        self.truncate_registers(result_register);
+        result
+    }
+
+    fn run_read_op_inner(
+        &mut self,
+        op: ReadOp,
+        container: KValue,
+        read_arg: KValue,
+    ) -> Result<KValue> {
         let old_frame_count = self.call_stack.len();
 
         let result_register = self.next_register();
@@ -582,6 +616,20 @@ impl KotoVm {
 
     /// Provides the result of running a write operation (i.e. via access or index)
     pub fn run_write_op(
+        &mut self,
+        op: WriteOp,
+        container: KValue,
+        write_arg: KValue,
+        write_value: KValue,
+    ) -> Result<KValue> {
+        let result_register = self.next_register();
+        let result = self.run_write_op_inner(op, container, write_arg, write_value);
+        // Ensure that the operation's registers are discarded if it exited early with an error
+        self.truncate_registers(result_register);
+        result
+    }
+
+    fn run_write_op_inner(
         &mut self,
         op: WriteOp,
         container: KValue,
